@@ -335,9 +335,15 @@ static void check_returned(KSI_AsyncHandle *h) {
 		else if (err == KSI_NETWORK_ERROR || err == KSI_ASYNC_CONNECTION_CLOSED || err == KSI_IO_ERROR) {
 			/* the connection went down: by the peer, or by the client itself when a request that was only partly written ran into its send
 			 * time-out (the stream can only be resumed on a new connection, so everything waiting on the old one fails with it) */
-			int k;
+			int k, q, cut = 0;
 			cls = "connection"; explained = W.cause_conn > since;
 			for (k = 0; k < W.nreq && !explained; k++) if (!W.req[k].is_conf && !W.req[k].returned && !W.req[k].sent_complete && (W.cfg.snd == 0 || difftime(sn_now, W.req[k].add_time) > W.cfg.snd)) explained = 1;
+			/* the same when the partly written request is a configuration request that is given up: because its send time-out has passed, or
+			 * because a configuration that arrived in the meantime has answered it (it bears no id: any authentic configuration completes
+			 * it). Whether it had gone out completely is read off the connection: closed by the client, its output ending inside a request */
+			for (q = 0; q < SN_MAX_CONN; q++) if (sn_conns[q].state == SN_CLOSED_BY_CLIENT && sn_conns[q].out.n > sn_conns[q].parsed_out) cut = 1;
+			for (k = 0; k < W.nreq && !explained && cut; k++) if (W.req[k].is_conf &&
+					((!W.req[k].returned && (W.cfg.snd == 0 || difftime(sn_now, W.req[k].add_time) > W.cfg.snd)) || W.conf_arrived > W.req[k].conf_seen_at_add)) explained = 1;
 		}
 		else { cls = "bad-data"; explained = W.cause_baddata > since || W.cause_status > since; }   /* malformed or unauthenticated data on the connection */
 		vf_outcome("returned:error:%s", cls);
@@ -1026,9 +1032,25 @@ static void part_dfs2(void) {
 	}
 }
 
+/* development aid: C13_HIST=<event letters> [C13_CFG=<n>] [C13_KEEP=<n>] [C13_EXT=1] runs that one history and nothing else */
+static int run_one_history(void) {
+	const char *h = getenv("C13_HIST");
+	int hist[32], n = 0, ci = getenv("C13_CFG") ? atoi(getenv("C13_CFG")) : 0;
+	if (h == NULL) return 0;
+	for (; *h && n < 32; h++) { const char *q = strchr(EVCH, *h); if (q == NULL) vf_harness_error("C13_HIST: unknown event letter %c", *h); hist[n++] = (int)(q - EVCH); }
+	if (getenv("C13_KEEP")) g_keep = atoi(getenv("C13_KEEP"));
+	if (getenv("C13_EXT")) g_ext = atoi(getenv("C13_EXT"));
+	if (!vf_case_begin("one-history")) return 1;
+	if (replay(&CONFIGS[ci], hist, n) && !W.violated) drain();
+	world_close();
+	vf_case_end(1);
+	return 1;
+}
+
 static void run(void) {
 	int ci, e1, e2, e3;
 	int depth = VF_THOROUGH ? 8 : 6;
+	if (run_one_history()) return;
 	seen = calloc((size_t)1 << SEEN_BITS, sizeof *seen);
 	alpha_main();
 	part_conf();
